@@ -1,0 +1,21 @@
+//go:build verif
+
+package keeper
+
+import (
+	sdk "github.com/cosmos/cosmos-sdk/types"
+
+	packettypes "github.com/bianjieai/tibc-go/modules/tibc/core/04-packet/types"
+)
+
+// VerifCallbackHook, when set by a monitoring harness, is told about every
+// application callback the message server dispatches: kind is "recv" or "ack",
+// ack holds the bytes returned by OnRecvPacket (recv) or passed to
+// OnAcknowledgementPacket (ack). Only compiled with the `verif` build tag.
+var VerifCallbackHook func(ctx sdk.Context, chainName, kind string, packet packettypes.Packet, ack []byte, err error)
+
+func (m msgServer) verifCallback(ctx sdk.Context, kind string, packet packettypes.Packet, ack []byte, err error) {
+	if VerifCallbackHook != nil {
+		VerifCallbackHook(ctx, m.k.ClientKeeper.GetChainName(ctx), kind, packet, ack, err)
+	}
+}
